@@ -272,7 +272,7 @@ func runEngOp(op string) string {
 	if ngs > 0 {
 		perturb = func(string) { g3Gosched(ngs) }
 	}
-	fx := newG3Fixture(p, role, g3FixOpts{perturb: perturb})
+	fx := newG3Fixture(p, role, g3FixOpts{perturb: perturb, slowTimers: true})
 	defer fx.close()
 	attempts, handles, wantErr, _ := g3Predict(p, role, locals, peers)
 	var wg sync.WaitGroup
@@ -543,6 +543,17 @@ func runPairOp(hd []string, toks []string) string {
 			}
 			return nil
 		}
+		sm := cfg.StateMap.Copy()
+		for s, e := range sm {
+			if e.Timeout > 0 && e.Timeout < time.Hour {
+				e.Timeout = time.Hour
+			}
+			if e.TimeoutFunc != nil {
+				e.TimeoutFunc = func() time.Duration { return time.Hour }
+			}
+			sm[s] = e
+		}
+		cfg.StateMap = sm
 		f.cfg = cfg
 		return f
 	}
